@@ -8,7 +8,8 @@ decide stays open, and the check then fails closed (ANALYSIS-ERROR), so the "com
 precondition is verified as a side effect.
 """
 from .poly import Sym
-from .interp import Cmp, Hooks
+from .interp import Cmp, Hooks, NotC, Pred
+from .poly import Sym
 
 
 def ordered_partitions(items):
@@ -138,6 +139,20 @@ class WitnessCase(Hooks):
                 return None
             return {'<': d < 0, '<=': d <= 0, '>': d > 0, '>=': d >= 0, '==': d == 0,
                     '!=': d != 0}[cond.op]
+        if isinstance(cond, NotC):
+            inner = self.decide(cond.c, st)
+            return None if inner is None else not inner
+        if isinstance(cond, Pred) and cond.name == 'isclose' and len(cond.args) == 2 and all(
+                isinstance(a, Sym) for a in cond.args):
+            # math.isclose(a, b) with its defaults rel_tol = 1e-09, abs_tol = 0 (a call that
+            # passes other tolerances carries more arguments and is not decided here)
+            from fractions import Fraction
+            try:
+                a, b = (x.evaluate(self.assign) for x in cond.args)
+            except (KeyError, ZeroDivisionError):
+                self.undecided.append(cond)
+                return None
+            return abs(a - b) <= Fraction(1, 10 ** 9) * max(abs(a), abs(b))
         self.undecided.append(cond)
         return None
 
